@@ -26,7 +26,10 @@ pub fn init_process(with_sim: bool) {
     runner::install_panic_hook();
     track::register_static_image();
     if with_sim {
-        track::enable_delayed_frees();
+        // Experimental, off by default (DESIGN.md 11.1, "delayed frees").
+        if std::env::var_os("A10VERIF_DELAYED_FREES").is_some() {
+            track::enable_delayed_frees();
+        }
         sim::install();
         interp::warmup();
     }
